@@ -16,7 +16,7 @@ Annex B keywords TYPED BELOW (not imported from verilog.py); (3) every identifie
 once; (4) the two texts are identical after masking the two date lines.
 """
 import fsmc  # noqa: F401  FIRST import (sys.path -> $VERIF_REPO, tracer shim)
-import os, sys, re, json, copy, itertools, subprocess, signal
+import os, sys, re, json, itertools, subprocess
 
 PROPERTY = "C02"
 LEVEL = "exploration"
@@ -108,6 +108,18 @@ SHAPES = [
     (("a", 0), ("sink", 0), ("x", 0)),        # 13 shared prefix with 6, 9, 10
     (("a", 0), ("x", 1)),                     # 14 same parent, same name, second object
 ]
+N_BASE_SHAPES = len(SHAPES)        # 15: used by every family
+SHAPES += [                        # + 9 = the 24-shape "hierarchy menu" of the thorough tier (family flat3x, k = 3)
+    (("a", 0), ("a", 0)),                     # 15 a node and its signal share a name
+    (("x", 0), ("a", 0)),                     # 16 inverse nesting
+    (("a", 0), ("b", 1), ("x", 0)),           # 17 second instance at depth 2
+    (("b", 0), ("a", 0), ("x", 0)),           # 18 swapped hierarchy
+    (("a", 2), ("x", 0)),                     # 19 third, non-contiguous instance number
+    (("a_b", 0), ("x", 0)),                   # 20 node name that looks like a joined path
+    (("a", 0), ("b_x", 0)),                   # 21 leaf name that looks like a joined path
+    (("sink", 1), ("x", 0)),                  # 22 other instance of sink
+    (("x0", 0),),                             # 23 looks like a DUID-disambiguated name
+]
 OVERRIDES = [None, "x", "x_1", "x_2", "reg", "repeat", "always"]
 # reduced menus for the related-chain families
 R_SHAPES_Q = [0, 1, 2, 3, 6, 7, 9, 12]        # quick, k<=3
@@ -115,7 +127,8 @@ R_OVERRIDES_Q = [0, 1, 2, 4, 5]               # None x x_1 reg repeat
 R_SHAPES_4 = [0, 2, 3, 6, 7]                  # thorough, k=4
 R_OVERRIDES_4 = [0, 1, 2, 5]                  # None x x_1 repeat
 
-FULL = [(s, o) for s in range(len(SHAPES)) for o in range(len(OVERRIDES))]
+FULL = [(s, o) for s in range(N_BASE_SHAPES) for o in range(len(OVERRIDES))]
+EXT = [(s, o) for s in range(len(SHAPES)) for o in range(len(OVERRIDES))]
 RED_Q = [(s, o) for s in R_SHAPES_Q for o in R_OVERRIDES_Q]
 RED_4 = [(s, o) for s in R_SHAPES_4 for o in R_OVERRIDES_4]
 
@@ -144,7 +157,7 @@ CONF_EVERY = 32     # every CONF_EVERY-th scenario is re-run on fresh builds (co
 # ------------------------------------------------------------------------------------------------------------------
 # Configurations
 # ------------------------------------------------------------------------------------------------------------------
-NPART = {"flat3": 32, "relq": 16, "flat4": 128, "rel3": 64, "rel4": 128}
+NPART = {"flat3": 32, "relq": 16, "flat4": 128, "rel3": 64, "rel4": 128, "flat3x": 64}
 
 
 def configs(tier):
@@ -155,6 +168,7 @@ def configs(tier):
     c += [("namer.related.k2-3(reduced menu, ordered).part%02d/%d" % (p, NPART["relq"]), "relq", p) for p in range(NPART["relq"])]
     if tier == "thorough":
         c += [("namer.flat.k4(full menu, multisets x 2 creation orders).part%03d/%d" % (p, NPART["flat4"]), "flat4", p) for p in range(NPART["flat4"])]
+        c += [("namer.flat.k3x(24-shape menu, ordered, at least one extended shape).part%02d/%d" % (p, NPART["flat3x"]), "flat3x", p) for p in range(NPART["flat3x"])]
         c += [("namer.related.k3(full menu, ordered).part%02d/%d" % (p, NPART["rel3"]), "rel3", p) for p in range(NPART["rel3"])]
         c += [("namer.related.k4(reduced menu, ordered).part%03d/%d" % (p, NPART["rel4"]), "rel4", p) for p in range(NPART["rel4"])]
     for name, (t, fn) in c02_designs.REGISTRY.items():
@@ -173,6 +187,11 @@ def scenarios(kind, part):
         n = NPART[kind]
         for i, specs in enumerate(itertools.product(FULL, repeat=3)):
             if i % n == part:
+                yield specs, (-1, -1, -1), False
+    elif kind == "flat3x":
+        n = NPART[kind]
+        for i, specs in enumerate(itertools.product(EXT, repeat=3)):
+            if i % n == part and max(specs[0][0], specs[1][0], specs[2][0]) >= N_BASE_SHAPES:      # (the rest is family flat3)
                 yield specs, (-1, -1, -1), False
     elif kind == "flat4":
         n = NPART[kind]
@@ -234,22 +253,14 @@ class Namer:
 
     @staticmethod
     def clone(ns):
-        try:
-            c = object.__new__(type(ns))
-            d = c.__dict__
-            d.update(ns.__dict__)
-        except Exception:                       # (a namespace class without __dict__: slow path)
-            c = copy.copy(ns)
-            d = None
-        for a, v in list(vars(ns).items()) if d is not None else []:
+        """One-level copy of a namespace (its dict / set / list attributes are copied, the Signals are shared)."""
+        c = object.__new__(type(ns))
+        d = c.__dict__
+        d.update(ns.__dict__)
+        for a, v in ns.__dict__.items():
             t = type(v)
             if t is dict or t is set or t is list:
                 d[a] = t(v)
-        if d is None:
-            for a in getattr(type(ns), "__slots__", ()):
-                v = getattr(ns, a)
-                if type(v) in (dict, set, list):
-                    setattr(c, a, type(v)(v))
         return c
 
     def classify(self, nm, res):
@@ -386,7 +397,8 @@ class Namer:
                     probs = probs + [unstable]
                 if probs:
                     if vkey is None:
-                        vkey = (k, sum(o is not None for o in ovs), sum(len(b) for b in bts), ordinal)
+                        # "smallest" is defined on the case itself, not on the enumeration order (seed independent)
+                        vkey = (k, sum(o is not None for o in ovs), sum(len(b) for b in bts), bts, tuple(o or "" for o in ovs), rel, reverse)
                     for rule, msg in probs:
                         if rule.startswith("namer.unique"):
                             cover["collisions"] += 1
@@ -394,7 +406,7 @@ class Namer:
             if raised and fine:
                 self.record("namer.repro.order_dependent_exception",
                             f"get_name raises for first-call order {list(raised[0][0])} ({raised[0][1]}) but works for order {list(fine[0])}",
-                            (k, 0, 0, ordinal), (bts, ovs, rel, reverse, raised[0][0], res, None))
+                            (k, 0, 0, bts, tuple(o or "" for o in ovs), rel, reverse), (bts, ovs, rel, reverse, raised[0][0], res, None))
         if nontrivial:
             self.n_nontrivial += 1
         if ordinal % CONF_EVERY == 0:
@@ -533,7 +545,7 @@ CHILD_TIMEOUT = 240
 
 PORT_RE = re.compile(r"^\s+(input|output|inout)\s+(wire|reg)\s+(signed\s+)?(\[\d+:\d+\]\s+)?(?P<id>[^\s,;]+),?$")
 DECL_RE = re.compile(r"^(wire|reg)\s+(signed\s+)?(\[\d+:\d+\]\s*)?(?P<id>[^\s;=\[]+)\s*(?P<mem>\[\d+:\d+\])?\s*(=[^;]*)?;$")
-INST1_RE = re.compile(r"^(?P<of>[^\s()#]+) (?P<id>[^\s()]+)\($")
+INST1_RE = re.compile(r"^(?P<of>[^\s()#]+) (?P<id>[^\s()#]+)\($")
 INST2_RE = re.compile(r"^\) (?P<id>[^\s()]+) \($")
 INSTC_RE = re.compile(r"^// Instance (?P<id>.+) of (?P<of>\S+) Module\.$")
 DATE_RES = (re.compile(r"^// Date       : .*$", re.M), re.compile(r"^//  Auto-Generated by LiteX on .*$", re.M))
@@ -660,6 +672,21 @@ def analyse_netlist(doc):
     return viol, cover, sample
 
 
+def aggregate(viol):
+    """One violation per rule and design: the first instance (names are visited in sorted order) + how many there are."""
+    first, count = {}, {}
+    for v in viol:
+        first.setdefault(v["rule"], v)
+        count[v["rule"]] = count.get(v["rule"], 0) + 1
+    out = []
+    for rule, v in first.items():
+        if count[rule] > 1:
+            v = dict(v, msg=f"{v['msg']}  [{count[rule]} instances of this rule in this netlist; first shown]",
+                     detail=dict(v["detail"], instances_in_this_netlist=count[rule]))
+        out.append(v)
+    return out
+
+
 def run_design(cfg, seed):
     name, design = cfg[0], cfg[2]
     order = HASHSEEDS[::-1] if seed % 2 else HASHSEEDS
@@ -678,8 +705,9 @@ def run_design(cfg, seed):
     elif docs[0]["data_files"] != docs[1]["data_files"]:
         viol.append(dict(rule="netlist.repro.data_files", msg="two runs emit different memory initialisation files",
                          detail=dict(files_a=sorted(docs[0]["data_files"]), files_b=sorted(docs[1]["data_files"]))))
-    elif {json.dumps(v, sort_keys=True) for v in viol} != {json.dumps(v, sort_keys=True) for v in viol_b}:
+    elif sorted(v["rule"] for v in viol) != sorted(v["rule"] for v in viol_b):
         raise C02MachineryError("identical texts but different verdicts in the two runs")
+    viol = aggregate(viol)
     for v in viol:
         v["detail"]["design"] = design
         v["trace"] = [f"top, ios = checks.c02_designs.build({design!r})", "litex.gen.fhdl.verilog.convert(top, ios=ios, name='top')"]
@@ -705,7 +733,8 @@ def extra_coverage(results):
         for k, v in (r.get("cover") or {}).items():
             if isinstance(v, int):
                 tot[k] = tot.get(k, 0) + v
-    return dict(menus=dict(backtrace_shapes=[[list(e) for e in s] for s in SHAPES], name_overrides=OVERRIDES,
+    return dict(menus=dict(backtrace_shapes=[[list(e) for e in s] for s in SHAPES[:N_BASE_SHAPES]],
+                           backtrace_shapes_extended_thorough_k3=[[list(e) for e in s] for s in SHAPES[N_BASE_SHAPES:]], name_overrides=OVERRIDES,
                            related_reduced_quick=dict(shapes=R_SHAPES_Q, overrides=[OVERRIDES[i] for i in R_OVERRIDES_Q]),
                            related_reduced_k4=dict(shapes=R_SHAPES_4, overrides=[OVERRIDES[i] for i in R_OVERRIDES_4]),
                            keyword_list="IEEE 1800-2017 Annex B, 248 words, typed in checks/c02_names.py"),
